@@ -301,7 +301,7 @@ def convexity_generic(gen, tag, R, G, mu, src, not_decided):
 
 
 # ------------------------------------------------------------------------------------------------ bounded (concrete n)
-def bounded_vcs(name, sizes, info, not_decided, assumptions, symmetric=(), extra_hyps=None, cls=None, tu=None, convex_timeout=30, use_ctor=False, convex_sizes=None):
+def bounded_vcs(name, sizes, info, not_decided, assumptions, symmetric=(), extra_hyps=None, cls=None, tu=None, convex_timeout=30, use_ctor=False, convex_sizes=None, pieces=False):
     cls = cls or cls_of(name)
     tu = tu or BENCH + name + '.cpp'
     path = astload.REPO + '/' + tu
@@ -370,6 +370,8 @@ def bounded_vcs(name, sizes, info, not_decided, assumptions, symmetric=(), extra
                               ('>=', Rz, ('+', Rt) + tuple(lin) + tuple(quad)), about='for all x, z in R^n, n fixed', source=src, timeout=convex_timeout))
         elif cf['convex'] not in ('no', 'yes'):
             raise Unsupported(f'{tag}: convex(..) flag not found in the constructor')
+        if pieces is True or (pieces and n in pieces):
+            vcs += piecewise_vcs(gen, tag, Rt, Gt, xs, src, cf['convex'] == 'yes')
         vcs += gen.lemmas
         for v in vcs:
             v.bound = f'dimension n = {n}'
@@ -427,4 +429,66 @@ def helper_vcs(info):
     gen = Gen(wp.decls, tag='nano::is_pos_target')
     vcs.append(gen.vc('nano::is_pos_target/returns target > 0 (the contract assumed at its call sites)', [], ('=', sx.parse(rets[0].t), ('>', '|target|', '0.0')),
                       source={'file': hdr2, 'line': fn.get('loc', {}).get('line')}))
+    return vcs
+
+
+# ------------------------------------------------------------------------------------------------ max-of-terms functions
+def candidate(gv, dgrads, syms):
+    """index of the piece whose derivative vector agrees NUMERICALLY with the branch's gradient at three fixed points (a heuristic
+    that only chooses which identity is then obliged; None: no piece fits)"""
+    import random
+    rnd = random.Random(20260926)
+    pts = [{s: rnd.uniform(-2.0, 2.0) for s in syms} for _ in range(3)]
+    for j, dg in enumerate(dgrads):
+        try:
+            if all(abs(sx.evaluate(g, pt) - sx.evaluate(d, pt)) <= 1e-9 * (1.0 + abs(sx.evaluate(d, pt))) for pt in pts for g, d in zip(gv, dg)):
+                return j
+        except (sx.SxError, ValueError, ZeroDivisionError, OverflowError):
+            continue
+    return None
+
+
+
+def piecewise_vcs(gen, tag, R, G, xs, src, convex, hyps=()):
+    """functions whose value is an upper envelope (max of terms, or a sum of such) and whose gradient is the gradient of ONE selected
+    term.  Instead of the whole inequality f(z) >= f(x) + <g(x), z - x> (undecided by the solvers once exp is involved), the three facts
+    it follows from (COMPOSITION RULE, trusted: f(z) >= p(z) >= p(x) + <grad p(x), z - x> = f(x) + <g(x), z - x>):
+      envelope   every piece p of the value (the value with its comparisons decided one way) satisfies p <= value everywhere
+      convex     every signed addend of every piece is convex (so the piece is)
+      active     on every branch of the gradient code: the returned vector is the gradient of a piece p, and that piece is ACTIVE at
+                 the point: p(x) == value(x)          <- this is the obligation a wrong branch / a tie handled wrongly refutes"""
+    vcs = []
+    n = len(xs)
+    vp = sx.pieces(R)
+    distinct = []
+    for conds, p in vp:
+        if p not in distinct:
+            distinct.append(p)
+    for j, p in enumerate(distinct):
+        vcs.append(gen.vc(f'{tag}/envelope: piece {j} of the value never exceeds the value', list(hyps), ('>=', R, p), about=sx.show(p)[:200], source=src))
+    if convex:
+        zs = [gen.declare(f'|z@{k}|') for k in range(n)]
+        done = []
+        for j, p in enumerate(distinct):
+            for sign, a in sx.addends(p):
+                term = a if sign > 0 else ('-', a)
+                if term in done:
+                    continue
+                done.append(term)
+                tz = sx.subst(term, dict(zip(xs, zs)))
+                lin = [('*', sx.D(term, xs[k]), ('-', zs[k], xs[k])) for k in range(n) if sx.mentions(term, xs[k])]
+                vcs.append(gen.vc(f'{tag}/convex addend {len(done)}: t(z) >= t(x) + <grad t(x), z - x>', list(hyps), ('>=', tz, ('+', term) + tuple(lin)),
+                                  about=sx.show(term)[:200], source=src))
+    gp = sx.pieces(('vec',) + tuple(G))
+    dgrads = [[sx.D(p, xv) for xv in xs] for p in distinct]
+    syms = sorted(set().union(*[sx.atoms(p) for p in distinct], *[sx.atoms(g) for g in G]))
+    for b, (conds, gv) in enumerate(gp):
+        sel = candidate(gv[1:], dgrads, syms)
+        label = ' and '.join(sx.show(c) for c in conds)[:160]
+        if sel is None:
+            vcs.append(gen.vc(f'{tag}/active: branch {b} of the gradient code returns the gradient of a piece of the value', list(hyps) + list(conds), 'false',
+                              about=label, source=src))
+            continue
+        vcs.append(gen.vc(f'{tag}/active: branch {b} returns the gradient of piece {sel} and that piece attains the value', list(hyps) + list(conds),
+                          ('and', ('=', R, distinct[sel])) + tuple(('=', gv[1 + k], dgrads[sel][k]) for k in range(n)), about=label, source=src))
     return vcs
